@@ -5,6 +5,7 @@ def text_edit(old, new):
         return src.replace(old, new, 1) if old in src else None
     return edit
 MUTANTS = [
+    Mutant('atol_from_rtol', 'src/pharmpy/model/execution_steps.py', text_edit("d['solver_atol'] = self._solver_atol", "d['solver_atol'] = self._solver_rtol"), 'H7', 'key written from another field'),
     Mutant('ie_orient_list', 'src/pharmpy/model/model.py', text_edit("ie = self._initial_individual_estimates.to_dict()", "ie = self._initial_individual_estimates.to_dict(orient='list')"), 'H6', 'index dropped'),
     Mutant('to_dict_set_order', 'src/pharmpy/model/statements.py', text_edit("        comps = [comp for comp in self._g.nodes]", "        comps = [output, *_comps(self._g)]"), 'H4', 'set order in serialisation'),
     Mutant('key_rename_writer', 'src/pharmpy/model/parameters.py', edit_node('Parameters.to_dict', lambda n, seg: isinstance(n, ast.Constant) and seg == "'parameters'", lambda seg: "'params'"), 'H1', 'writer key renamed'),
